@@ -55,16 +55,18 @@ pub fn solve_generic_multi__scope_body(iter: u64, target: Tgt)
         let mut payoffs = PayoffMap::with_capacity(target.get());
         for it in 1..=iter 
 invariant
-    queue@.len() == 0, work@.len() == 0, map_len(&payoffs) == 0, // @ob C06.V.solve_generic_multi.workspace_fresh
+    queue@.len() == 0, // @cand queue_empty_at_head
+    work@.len() == 0, // @cand work_empty_at_head
+    map_len(&payoffs) == 0, // @cand payoffs_empty_at_head
 {
 let mut __draws = __draws_of_this_pass();
 
             // compute threadding threshold
             
-            __abs_thread_threshold(&mut queue, &mut work); // @ob C06.V.workspace_fresh.frontier
+            __abs_thread_threshold(&mut queue, &mut work); // @ob C06.V.solve_generic_multi.workspace_fresh
             // send threshold to threads for computation
             
-            __abs_par_drain_into(&mut payoffs, &mut queue); // @ob C06.V.workspace_fresh.payoff_cache
+            __abs_par_drain_into(&mut payoffs, &mut queue); // @ob C06.V.solve_generic_multi.workspace_fresh
             // search full from there
             
             // the frontier and cached payoffs only describe this iteration
